@@ -1941,7 +1941,10 @@ impl<'a, S: Storage> Iterator for IncrementalValidatorImpl<'a, S> {
                 Some(listing) => {
                     match listing {
                         Listing::Directory(name) => {
-                            if name == EXTENSIONS_DIR {
+                            // Only the storage root's extensions directory is reserved
+                            if name == EXTENSIONS_DIR
+                                && self.current_iter.as_ref().unwrap().path.is_empty()
+                            {
                                 continue;
                             }
 
